@@ -8,7 +8,7 @@ from . import grammar as G
 SALT_CHARS = "abcdefghijklmnopqrstuvwxyzABCDEFGHIJKLMNOPQRSTUVWXYZ0123456789"
 
 FILE_NAMES = ["a.cfg", "b.cfg", "r1 core.conf", "rtr-é.txt", "x.y.z", "CONFIG", "ñandú.cfg", "c d e.txt", "0",
-              "edge_fw.cfg", "sw01.txt", "Ünï.conf"]
+              "edge_fw.cfg", "sw01.txt", "Ünï.conf", "-opt.cfg", "a..b.cfg", "~tilde", "--salt"]
 HIDDEN_NAMES = [".hidden", ".DS_Store", ".x.cfg"]
 DIR_NAMES = ["sub", "site a", "düs", ".git", "deep", "d2", "pop-1", "out", "deeper", "res dir", "in", "nested"]
 
